@@ -98,6 +98,33 @@ def h_tables(ctx, N, d, tol=None):
     ctx.fact(all(tuple(int(round(v)) for v in rays[j]) == rows[j] for j in range(nJ)), 'rays == multi-indices')
 
 
+def h_int_kinds(ctx, N, d):
+    """N and d given as NumPy integers of any type (uint64 arithmetic promotes to float) give the
+    tables of the python ints; init_tensor(d, x) likewise (concrete: decided by the run itself)"""
+    algopy = symx.load_algopy()
+    import algopy.exact_interpolation as ei
+    J0 = ei.generate_multi_indices(N, d)
+    G0, R0 = ei.generate_Gamma_and_rays(N, d)
+    T0 = algopy.UTPM.init_tensor(d, np.arange(1, N + 1, dtype=float)).data
+    for t in (np.uint64, np.int64, np.uint8, np.int32):
+        try:
+            J = ei.generate_multi_indices(t(N), t(d))
+            G, R = ei.generate_Gamma_and_rays(t(N), t(d))
+            T = algopy.UTPM.init_tensor(t(d), np.arange(1, N + 1, dtype=float)).data
+        except Exception as e:
+            ctx.fact(False, 'N, d given as %s raised %s: %s' % (t.__name__, type(e).__name__, str(e)[:70]))
+            continue
+        ctx.fact(np.array_equal(np.asarray(J), np.asarray(J0)) and np.array_equal(np.asarray(G, dtype=float), np.asarray(G0, dtype=float))
+                 and np.array_equal(np.asarray(R, dtype=float), np.asarray(R0, dtype=float)) and np.array_equal(np.asarray(T, dtype=float), np.asarray(T0, dtype=float)),
+                 'tables and seed for N, d given as %s equal those for python ints' % t.__name__)
+    ctx.eq(S_zero(ctx), S_zero(ctx), 'integer kinds of N and d')
+
+
+def S_zero(ctx):
+    from .. import sym as S
+    return S.const(0) if ctx.mode == 'sym' else 0.0
+
+
 def h_sequence(ctx, pairs):
     """tables requested one after the other in the same process (no state may leak between
     calls): in particular (N,d) pairs with the same number of multi-indices"""
@@ -160,6 +187,7 @@ def units(tier, seed):
     for sc in ('3/100000000000000', '1/100000000000000000000'):
         out.append(Unit('C15/consumer: program scaled by %s/N2,d3' % sc, 'symx.props.c09', 'h_tensor', {'N': 2, 'd': 3, 'm': 4, 'scale': sc},
                         {'property': PROP, 'float_tol': 2e-4}))
+    out.append(Unit('C15/N and d given as NumPy integers (uint64, int64, uint8, int32)', 'symx.props.c15', 'h_int_kinds', {'N': 2, 'd': 3}, {'property': PROP, 'validate': False}))
     for N, d in ([(2, 3), (3, 2)] if tier == 'quick' else [(2, 3), (3, 2), (3, 3), (4, 2), (2, 5)]):
         out.append(Unit('C15/increment+binomial N=%d d=%d' % (N, d), 'symx.props.c15', 'h_increment', {'N': N, 'd': d},
                         {'property': PROP, 'validate': False}))
